@@ -146,44 +146,53 @@ static inline int tokOf(const Pay* p) {
 
 struct Ctx { int tag; };
 
+// the configuration is built by applying the modifiers one after the other; they must commute, so the order is a profile parameter
+template <typename G> struct AddCtx {
 #if   VH_CTX == 0
-using CfgC = ffsm2::Config;
+	using Type = G;
 #elif VH_CTX == 1
-using CfgC = ffsm2::Config::ContextT<Ctx>;
+	using Type = typename G::template ContextT<Ctx>;
 #elif VH_CTX == 2
-using CfgC = ffsm2::Config::ContextT<Ctx&>;
+	using Type = typename G::template ContextT<Ctx&>;
 #elif VH_CTX == 3
-using CfgC = ffsm2::Config::ContextT<Ctx*>;
+	using Type = typename G::template ContextT<Ctx*>;
 #endif
+};
+template <typename G> struct AddMan {
+#if VH_MANUAL
+	using Type = typename G::ManualActivation;
+#else
+	using Type = G;
+#endif
+};
+template <typename G> struct AddLim { using Type = typename G::template SubstitutionLimitN<VH_L>; };
+template <typename G> struct AddCap {
+#if VH_PLANS && VH_CAP
+	using Type = typename G::template TaskCapacityN<VH_CAP>;
+#else
+	using Type = G;
+#endif
+};
+template <typename G> struct AddPay {
+#if VH_PAY
+	using Type = typename G::template PayloadT<Pay>;
+#else
+	using Type = G;
+#endif
+};
 
 #ifndef VH_CFGORDER
-#define VH_CFGORDER 0		// 0: activation, limit, capacity, payload;  1: limit, capacity, payload, activation (the modifiers must commute)
+#define VH_CFGORDER 0
 #endif
-
-#if VH_MANUAL && !VH_CFGORDER
-using CfgM = CfgC::ManualActivation;
-#else
-using CfgM = CfgC;
-#endif
-
-using CfgL = CfgM::SubstitutionLimitN<VH_L>;
-
-#if VH_PLANS && VH_CAP
-using CfgT = CfgL::TaskCapacityN<VH_CAP>;
-#else
-using CfgT = CfgL;
-#endif
-
-#if VH_PAY
-using CfgP = CfgT::PayloadT<Pay>;
-#else
-using CfgP = CfgT;
-#endif
-
-#if VH_MANUAL && VH_CFGORDER
-using Cfg = CfgP::ManualActivation;
-#else
-using Cfg = CfgP;
+using Cfg0 = ffsm2::Config;
+#if   VH_CFGORDER == 0		// context, activation, limit, capacity, payload
+using Cfg = AddPay<AddCap<AddLim<AddMan<AddCtx<Cfg0>::Type>::Type>::Type>::Type>::Type;
+#elif VH_CFGORDER == 1		// context, limit, capacity, payload, activation
+using Cfg = AddMan<AddPay<AddCap<AddLim<AddCtx<Cfg0>::Type>::Type>::Type>::Type>::Type;
+#elif VH_CFGORDER == 2		// limit, capacity, payload, activation, context
+using Cfg = AddCtx<AddMan<AddPay<AddCap<AddLim<Cfg0>::Type>::Type>::Type>::Type>::Type;
+#else						// payload, capacity, limit, context, activation
+using Cfg = AddMan<AddCtx<AddLim<AddCap<AddPay<Cfg0>::Type>::Type>::Type>::Type>::Type;
 #endif
 
 using M = ffsm2::MachineT<Cfg>;
@@ -636,6 +645,23 @@ template <> struct Perform<3> {
 	}
 };
 
+//------------------------------------------------------------------------------ kept plan views
+// A read-only plan view obtained BEFORE the plan is edited and read again afterwards must still describe the live plan
+// (a view is a handle, not a snapshot).  PlanKeeper holds such a view across the acts of a callback / across an API operation.
+
+template <bool On, typename TOwner> struct PlanKeeper {
+	explicit PlanKeeper(const TOwner&) {}
+	template <typename TMutableOwner> int check(TMutableOwner&) { return 1; }
+};
+#if VH_PLANS && !VH_COMPAT
+template <typename TOwner> struct PlanKeeper<true, TOwner> {
+	using CPlanView = decltype(static_cast<const TOwner*>(nullptr)->plan());
+	CPlanView view;
+	explicit PlanKeeper(const TOwner& owner) : view(owner.plan()) {}
+	template <typename TMutableOwner> int check(TMutableOwner& owner) { return planForms(owner.plan(), view); }
+};
+#endif
+
 //------------------------------------------------------------------------------ delivery
 
 // m: ffsm2::Method value; s: class index (NONE for root); j: 0 own, 1.. injection; K: control kind
@@ -698,6 +724,7 @@ static void deliver(int m, int s, int j, TControl& control, int selfOk, int evOk
 		}
 	}
 
+	PlanKeeper<(K >= 1), TControl> keptPlan(control);		// a const view of the plan taken before the acts
 	g_rec.s("\"acts\":[");
 	bool first = true;
 	for (size_t n = 0; n < acts.size(); ++n) {
@@ -710,7 +737,7 @@ static void deliver(int m, int s, int j, TControl& control, int selfOk, int evOk
 		emitLogs("lg", g_pendLog, false);
 		g_rec.s("}");
 	}
-	g_rec.s("],"); g_rec.kv("mact2", machine.activeStateId(), false); g_rec.s("}\n");
+	g_rec.s("],"); g_rec.kv("pfl2", keptPlan.check(control)); g_rec.kv("mact2", machine.activeStateId(), false); g_rec.s("}\n");
 }
 
 
@@ -857,8 +884,8 @@ static void emitObs(Inst& in) {
 static void emitCall(Inst& in, const char* op, long a, long b, long p) {
 	g_rec.s("{\"e\":\"call\","); g_rec.kv("i", in.id); g_rec.ks("op", op); g_rec.kv("a", a); g_rec.kv("b", b); g_rec.kv("p", p, false); g_rec.s("}\n");
 }
-static void emitRet(Inst& in, const char* op, long r, bool destroyed = false) {
-	g_rec.s("{\"e\":\"ret\","); g_rec.kv("i", in.id); g_rec.ks("op", op); g_rec.kv("r", r);
+static void emitRet(Inst& in, const char* op, long r, bool destroyed = false, int keptOk = 1) {
+	g_rec.s("{\"e\":\"ret\","); g_rec.kv("i", in.id); g_rec.ks("op", op); g_rec.kv("r", r); g_rec.kv("pfl", keptOk);
 	emitLogs("pre", g_pendLog);
 	if (destroyed) {
 		g_rec.kv("act", NONE); g_rec.s("\"ia\":[],"); g_rec.kv("on", 0); g_rec.tr("prev", NONE, NONE, 0);
@@ -967,8 +994,16 @@ static bool execOp(int idx, const Op& o) {
 	const char* name = op.c_str();
 	long r = 0;
 	int cmpOk = 1; (void) cmpOk;
+	int keptOk = 1;
 	emitCall(in, name, o.a, o.b, o.p);
 	g_rec.flush();
+	// a const view of the plan taken before the operation must still describe the plan afterwards (operations that keep the machine alive and active)
+	using Keeper = PlanKeeper<true, FSM::Instance>;
+	alignas(16) unsigned char keeperStore[sizeof(Keeper)];
+	Keeper* keeper = nullptr;
+	if (in.m && in.active() && (op == "pc" || op == "pw" || op == "pr" || op == "px" || op == "update" || op == "react" || op == "ito" || op == "iwith" ||
+								op == "to" || op == "with" || op == "succeed" || op == "fail" || op == "query" || op == "obs" || op == "rt"))
+		keeper = new (keeperStore) Keeper(*in.m);
 	if (op == "ctor") { g_curFsm = in.storage; in.loggerOn = VH_LOG != 0 && o.p != 0; construct(in, static_cast<int>(o.a), static_cast<uint64_t>(o.b)); }
 	else if (op == "copy" || op == "move") {
 		Inst* src = (o.a >= 0 && o.a < MAX_INST) ? g_inst[o.a] : nullptr;
@@ -1055,7 +1090,8 @@ static bool execOp(int idx, const Op& o) {
 	else if (op == "attach") { in.loggerOn = o.a != 0; in.m->attachLogger(in.loggerOn ? &in.logger : nullptr); }
 #endif
 	else if (op == "obs") {}
-	emitRet(in, name, r);
+	if (keeper) { keptOk = keeper->check(*in.m); keeper->~Keeper(); }
+	emitRet(in, name, r, false, keptOk);
 	g_curFsm = nullptr;
 	if (g_rec.buf.size() > (1u << 20)) g_rec.flush();
 	return true;
